@@ -4,6 +4,10 @@
 #[verifier::external_body]
 pub struct Error { _p: () }
 pub type TeraResult<T> = Result<T, Error>;
+impl Error {
+    #[verifier::external_body]
+    pub fn component_not_found(name: &str) -> Error { unimplemented!() }
+}
 #[verifier::external_body]
 pub struct Context { _p: () }
 #[verifier::external_body]
@@ -28,9 +32,10 @@ pub uninterp spec fn safe_string_value(s: Seq<char>) -> Value;
 pub open spec fn components_wf(t: &Tera) -> bool {
     forall|n: Seq<char>| #[trigger] component_of(t, n) is Some ==> template_of(t, component_of(t, n)->Some_0.1.name@) is Some
 }
+/// `self.components.get(name)` (std contract of HashMap::get, the entry as a pair of references)
 #[verifier::external_body]
-pub fn vx_component_lookup<'a>(t: &'a Tera, name: &str) -> (r: TeraResult<(&'a ComponentDefinition, &'a Chunk)>)
-    ensures r is Ok == component_of(t, name@) is Some, r is Ok ==> r->Ok_0 == component_of(t, name@)->Some_0
+pub fn vx_component_get<'a>(t: &'a Tera, name: &str) -> (r: Option<(&'a ComponentDefinition, &'a Chunk)>)
+    ensures r is Some == component_of(t, name@) is Some, r is Some ==> r->Some_0 == component_of(t, name@)->Some_0
 { unimplemented!() }
 #[verifier::external_body]
 pub fn vx_template_lookup<'a>(t: &'a Tera, name: &String) -> (r: &'a Template)
